@@ -189,3 +189,66 @@ func VerifH_ReplicaPrecommit() {
 		verifrt.Assert(alloc.header.Eh == hdr.Eh, "Eh matches the entries")
 	}
 }
+
+// VerifH_ExportAfterTruncation: exporting a transaction whose values were (partly) truncated
+// terminates with a result or an explicit error and never leaves the store unable to serve the
+// next export. Each of the nentries values is, symbolically, still readable, truncated away
+// (the value log reports EOF) or unreadable for another reason. Whatever ExportTx returns:
+//  * the store's value buffer lock is released (the next ExportTx would otherwise block forever);
+//  * a fully readable tx is exported with its values, a fully truncated one by digests; a mix of
+//    the two is an explicit error, as is any other read failure.
+func VerifH_ExportAfterTruncation() {
+	version, nentries := verifrt.Param("version"), verifrt.Param("nentries")
+	hdr := verifSymHeader(version, 0)
+	hdr.NEntries = nentries
+	verifrt.Assume(hdr.ID >= 1 && hdr.BlTxID < hdr.ID)
+	entries := make([]*TxEntry, nentries)
+	vals := make([][]byte, nentries)
+	state := make([]byte, nentries) // 0 readable, 1 truncated (EOF), 2 other failure
+	nTrunc, nFail := 0, 0
+	for i := range entries {
+		vals[i] = verifrt.Bytes("e.val", 1)
+		entries[i] = NewTxEntry(verifrt.Bytes("e.key", 1), nil, 1, sha256.Sum256(vals[i]), int64(i))
+		state[i] = verifrt.Byte("e.state")
+		verifrt.Assume(state[i] <= 2)
+		if state[i] == 1 {
+			nTrunc++
+		}
+		if state[i] == 2 {
+			nFail++
+		}
+	}
+	verifrt.Stub("(*embedded/store.ImmuStore).readTx", func(s *ImmuStore, txID uint64, allowPrecommitted bool, skipIntegrityCheck bool, tx *Tx) error {
+		tx.header = hdr
+		tx.entries = entries
+		return nil
+	})
+	verifrt.Stub("(*embedded/store.ImmuStore).readValueAt", func(s *ImmuStore, b []byte, off int64, hvalue [sha256.Size]byte, skipIntegrityCheck bool) (int, error) {
+		switch state[off] {
+		case 1:
+			return 0, verifEOF()
+		case 2:
+			return 0, ErrCorruptedData
+		}
+		copy(b, vals[off])
+		return len(b), nil
+	})
+	st := &ImmuStore{maxKeyLen: 1024, maxValueLen: 4096, maxTxEntries: 1024}
+	exported, err := st.ExportTx(hdr.ID, false, false, &Tx{})
+	released := st._valBsMux.TryLock()
+	verifrt.Assert(released, "the value buffer lock is released when ExportTx returns")
+	if released {
+		st._valBsMux.Unlock()
+	}
+	switch {
+	case nFail > 0 && err == nil:
+		// a failure after a mixed prefix may be reported as the mix instead: either way an error
+		verifrt.Assert(false, "an unreadable value is an explicit error")
+	case nFail == 0 && nTrunc != 0 && nTrunc != nentries:
+		verifrt.Assert(err != nil, "a partially truncated transaction is an explicit error")
+		verifrt.Reach("partially truncated")
+	case nFail == 0:
+		verifrt.Assert(err == nil && len(exported) > 0, "fully readable or fully truncated transactions are exported")
+		verifrt.Reach("exported")
+	}
+}
